@@ -19,7 +19,7 @@ Pool == {Sc("int"), Sc("str"), Sc("bool"), Sc("float"), Sc("Any"), Sc("None"), S
          T("dict", <<Sc("str"), Sc("int")>>, <<>>), T("dict", <<Sc("str"), Sc("bool")>>, <<>>), T("Mapping", <<Sc("str"), Sc("Any")>>, <<>>),
          Model("m1"), Model("m2"), Model("m3"), Opt(Model("m2")), T("list", <<Model("m2")>>, <<>>), T("list", <<Model("m1")>>, <<>>),
          \* constant-length tuples are not iterables of the coercion rules: only the as-is rules apply to them
-         T("tuple1", <<Sc("int")>>, <<>>), T("tuple2", <<Sc("int"), Sc("str")>>, <<>>)}
+         T("tuple0", <<>>, <<>>), T("tuple1", <<Sc("int")>>, <<>>), T("tuple2", <<Sc("int"), Sc("str")>>, <<>>)}
         \cup (IF Rich THEN {T("newtype", <<>>, <<"NT">>), Sc("G_int"), Sc("G_str"), Sc("bytes"), T("frozenset", <<Sc("str")>>, <<>>),
                             T("deque", <<Sc("int")>>, <<>>), T("Iterable", <<Sc("A")>>, <<>>), T("list", <<Sc("B")>>, <<>>), Opt(Sc("A")),
                             Un(<<Sc("A"), Sc("int")>>), Un(<<LI, Sc("None"), Sc("str")>>), Opt(Opt(Sc("int")))} ELSE {})
@@ -35,7 +35,7 @@ Wrap(ctx, t) == CASE ctx = "direct" -> t [] ctx = "optional" -> Opt(t) [] ctx = 
 Contexts == {"direct", "optional", "list", "dictval", "dictkey"}
 \* types whose values can be keys
 KeyPool == {Sc("int"), Sc("str"), Sc("bool"), Sc("A"), Sc("B"), Model("m1"), Model("m2"), Model("m3"), Lit(<<"la">>), Lit(<<"la", "lb">>),
-            T("tuple1", <<Sc("int")>>, <<>>), Un(<<Sc("int"), Sc("str")>>), Opt(Sc("int"))}
+            T("tuple0", <<>>, <<>>), T("tuple1", <<Sc("int")>>, <<>>), Un(<<Sc("int"), Sc("str")>>), Opt(Sc("int"))}
 
 VARIABLES st, s, d, ctx
 Init == st = "root" /\ s = Sc("int") /\ d = Sc("int") /\ ctx = "direct"
